@@ -758,7 +758,8 @@ impl Property for C04 {
         o.key = fnv(text.as_bytes());
         o.class("text-replay");
         self.pipeline(text, &mut o);
-        if !o.is_fail() {
+        // the binary has no work bound: an excluded long range would just run until the watchdog
+        if !o.is_fail() && !o.classes.iter().any(|c| c == "excluded-long-range") {
             self.cli_sample(text, &mut o);
         }
         o
@@ -806,7 +807,7 @@ impl Property for C04 {
             return o;
         }
         self.pipeline(&text, &mut o);
-        if !o.is_fail() && t.chance(1, 40) {
+        if !o.is_fail() && t.chance(1, 40) && !o.classes.iter().any(|c| c == "excluded-long-range") {
             self.cli_sample(&text, &mut o);
         }
         let _ = self.tier;
